@@ -136,11 +136,15 @@ func TestBufFree(t *testing.T) {
 		witnessCommit := rapid.IntRange(1, 5).Draw(t, "witnessCommit")
 		cooldown := rapid.SampledFrom([]time.Duration{0, 0, 50 * time.Microsecond, time.Millisecond}).Draw(t, "cooldown")
 		cleanerYield := rapid.SampledFrom([]int{0, 0, 1, 3, 10}).Draw(t, "cleanerYield") // a cleaner callback may take its time
+		nObservers := rapid.SampledFrom([]int{0, 0, 1, 2}).Draw(t, "observers")          // goroutines polling Slice/Size/CleanerConfig
+		// the very first calls on the zero Buffer are made by two goroutines at once (the lazy initialiser tolerates
+		// it apart from the data race it documents, so this is not generated for the race-detector runs)
+		concFirst := prof != "C11" && rapid.IntRange(0, 3).Draw(t, "concurrentFirstUse") == 0
 		hookYield := map[int]int{}
 		for _, p := range []int{bigbuff.VerifGetAsyncStart, bigbuff.VerifWaitCondBeforePark, bigbuff.VerifWaitCondWatcherWoken, bigbuff.VerifCleanupAfterPass, bigbuff.VerifCleanupTimerFired} {
 			hookYield[p] = rapid.SampledFrom([]int{0, 0, 0, 1, 3, 10}).Draw(t, "hookYield")
 		}
-		trace := []string{fmt.Sprintf("producers=%d puts=%d values=%d prodYield=%d cooldown=%v witnessCommit=%d hooks=%v cleanerYield=%d", nProd, totalPuts, totalVals, prodYield, cooldown, witnessCommit, hookYield, cleanerYield)}
+		trace := []string{fmt.Sprintf("producers=%d puts=%d values=%d prodYield=%d cooldown=%v witnessCommit=%d hooks=%v cleanerYield=%d observers=%d concurrentFirstUse=%v", nProd, totalPuts, totalVals, prodYield, cooldown, witnessCommit, hookYield, cleanerYield, nObservers, concFirst)}
 		for i, c := range cons {
 			trace = append(trace, fmt.Sprintf("c%d=%+v", i, c.script))
 		}
@@ -159,6 +163,7 @@ func TestBufFree(t *testing.T) {
 			leak         string
 			closeErrs    []string
 			overlapPuts  bool
+			snapshots    [][]int
 		)
 		stamp := func() int64 { return clock.Add(1) }
 		bigbuff.VerifSetHook(func(p int) {
@@ -169,7 +174,7 @@ func TestBufFree(t *testing.T) {
 
 		rapid.SyncTest(t, func(t *rapid.T) {
 			b := new(bigbuff.Buffer)
-			_ = b.SetCleanerConfig(bigbuff.CleanerConfig{Cooldown: cooldown, Cleaner: func(size int, offsets []int) int {
+			cfg := bigbuff.CleanerConfig{Cooldown: cooldown, Cleaner: func(size int, offsets []int) int {
 				r := bigbuff.DefaultCleaner(size, offsets)
 				for i := 0; i < cleanerYield; i++ {
 					runtime.Gosched()
@@ -188,7 +193,18 @@ func TestBufFree(t *testing.T) {
 					mu.Unlock()
 				}
 				return r
-			}})
+			}}
+			if concFirst {
+				start := make(chan struct{})
+				var fw sync.WaitGroup
+				fw.Add(2)
+				go func() { defer fw.Done(); <-start; _ = b.SetCleanerConfig(cfg) }()
+				go func() { defer fw.Done(); <-start; _ = b.Size() }()
+				close(start)
+				fw.Wait()
+			} else {
+				_ = b.SetCleanerConfig(cfg)
+			}
 			guard := func(who string) {
 				if r := recover(); r != nil {
 					mu.Lock()
@@ -319,6 +335,39 @@ func TestBufFree(t *testing.T) {
 				wgCons.Add(1)
 				go runCons(i, c, false, c.script.commitEvery, nil)
 			}
+			obsStop := make(chan struct{})
+			var wgObs sync.WaitGroup
+			for o := 0; o < nObservers; o++ {
+				wgObs.Add(1)
+				go func() {
+					defer wgObs.Done()
+					defer guard("observer")
+					for n := 0; ; n++ {
+						select {
+						case <-obsStop:
+							return
+						default:
+						}
+						sl := b.Slice()
+						sz := b.Size()
+						_ = b.CleanerConfig()
+						_ = sz
+						if n%7 == 0 {
+							ints := make([]int, 0, len(sl))
+							for _, v := range sl {
+								iv, _ := v.(int)
+								ints = append(ints, iv)
+							}
+							mu.Lock()
+							if len(snapshots) < 40 {
+								snapshots = append(snapshots, ints)
+							}
+							mu.Unlock()
+						}
+						runtime.Gosched()
+					}
+				}()
+			}
 			for p := range puts {
 				wgProd.Add(1)
 				go func(p int) {
@@ -349,6 +398,8 @@ func TestBufFree(t *testing.T) {
 			}
 			wgProd.Wait()
 			close(allPut)
+			close(obsStop)
+			wgObs.Wait()
 			// the witness reads everything; then the remaining consumers are released by cancellation
 			wDone := make(chan struct{})
 			go func() { wgCons.Wait(); close(wDone) }()
@@ -464,6 +515,18 @@ func TestBufFree(t *testing.T) {
 				}
 			}
 		}
+		// ---- every Slice() snapshot taken while the program ran is a contiguous run of the put order
+		for _, sn := range snapshots {
+			for k, v := range sn {
+				at, ok := pos[v]
+				if !ok {
+					fail("C01+C03/slice-content", "a concurrent Slice() snapshot contains %d, which was never put", v)
+				}
+				if k > 0 && at != pos[sn[k-1]]+1 {
+					fail("C01+C03/slice-content", "a concurrent Slice() snapshot %s is not a contiguous run of the put order", bfAbbrev(sn))
+				}
+			}
+		}
 		// ---- every consumer sees a contiguous run of it, starting at the oldest value retained at its creation
 		evictedAt := func(stampT int64, before bool) int {
 			e := 0
@@ -514,6 +577,12 @@ func TestBufFree(t *testing.T) {
 			}
 		}
 		cls := []string{fmt.Sprintf("producers:%d", nProd), "cooldown:" + cooldown.String()}
+		if concFirst {
+			cls = append(cls, "concurrent-first-use")
+		}
+		if nObservers > 0 {
+			cls = append(cls, "observers")
+		}
 		if overlapPuts {
 			cls = append(cls, "puts-overlapped")
 		}
